@@ -104,6 +104,9 @@ def units(tier, seed):
                 continue            # Gamma is rebuilt by the library on every init/extract call: left to the thorough tier
             for form in ('prod', 'pow'):
                 us.append({'kind': 'mono', 'N': N, 'driver': 'tensor', 'd': d, 'form': form, 'tier': tier, 'seed': seed})
+    for N in range(1, NMAX[tier] + 1):
+        for drv in ('jacobian', 'jac_vec', 'hessian', 'hess_vec', 'tensor2', 'tensor3'):
+            us.append({'kind': 'vecpoly', 'N': N, 'driver': drv, 'tier': tier, 'seed': seed})
     us.append({'kind': 'dtype', 'tier': tier, 'seed': seed})
     us.append({'kind': 'repeat', 'tier': tier, 'seed': seed})
     progs = [p for p in PR.depth1()]
@@ -256,6 +259,159 @@ def run_mono(c, N, drv, tier, only_d=None, only_form=None):
     c.out['samples'] = [{'N': N, 'driver': drv, 'monomials': len(monos), 'points': len(pts), 'forms': ['prod', 'pow']}]
 
 
+def cvec(L):
+    return np.array([(-1) ** i * (i + 1) for i in range(L)], dtype=float)
+
+
+def cpow2(L):
+    return np.array([(-1) ** i * 2.0 ** (i % 3) for i in range(L)])
+
+
+def cmat(L, M):
+    return np.array([[(i + 1) * (-1) ** j + j for j in range(M)] for i in range(L)], dtype=float)
+
+
+def vec_forms(N, L):
+    """vectorised integer polynomial programs: a polynomial of lower rank combined with a constant array of HIGHER rank
+    (length L chosen to collide with the number of directions P, the number of coefficients D and N), reflected forms,
+    and in-place updates with an operand of lower rank.  Every form returns an array; the harness contracts it with
+    integer weights (scalar output) and, for 1-D results, also reads it as a vector-valued output."""
+    S = lambda x: x[0] * x[N - 1] + x[0]
+    fs = [
+        ('S*c', lambda x: S(x) * cvec(L)),
+        ('c*S', lambda x: cvec(L) * S(x)),
+        ('S+c', lambda x: S(x) + cvec(L)),
+        ('c-S', lambda x: cvec(L) - S(x)),
+        ('S-c', lambda x: S(x) - cvec(L)),
+        ('S/c', lambda x: S(x) / cpow2(L)),
+        ('S*C', lambda x: S(x) * cmat(L, 2)),
+        ('C*S', lambda x: cmat(2, L) * S(x)),
+        ('V*C', lambda x: (x * 1.0) * cmat(L, N)),
+        ('C+V', lambda x: cmat(L, N) + x * 2.0),
+        ('V/C', lambda x: (x * 1.0) / (2.0 ** (cmat(L, N) % 3))),
+    ]
+
+    def ip(name, upd, first=None):
+        def f(x):
+            y = first(x) if first is not None else x * cvec(N)
+            y = upd(y, x)
+            return y
+        fs.append((name, f))
+
+    def imul(y, x):
+        y *= x[N - 1]
+        return y
+
+    def iadd(y, x):
+        y += x[0] * x[N - 1]
+        return y
+
+    def isub(y, x):
+        y -= x[0]
+        return y
+
+    def idiv(y, x):
+        y /= 2.0
+        y *= x[0]
+        return y
+
+    def imulc(y, x):
+        y *= 3.0
+        y += x[N - 1]
+        return y
+    for nm, upd in (('imul', imul), ('iadd', iadd), ('isub', isub), ('idiv', idiv), ('imulc', imulc)):
+        ip('V;%s S' % nm, upd)
+        ip('(S*c);%s S' % nm, upd, lambda x: S(x) * cvec(L))
+        ip('(V*C);%s S' % nm, upd, lambda x: (x * 1.0) * cmat(L, N))
+
+    def imulv(y, x):
+        y *= x
+        return y
+
+    def iaddv(y, x):
+        y += x
+        return y
+    ip('(V*C);imul V', imulv, lambda x: (x * 1.0) * cmat(L, N))
+    ip('(V*C);iadd V', iaddv, lambda x: (x * 1.0) * cmat(L, N))
+    return fs
+
+
+def run_vecpoly(c, N, drv, tier):
+    from ..ref import qpoly
+    from math import comb
+    d = {'tensor2': 2, 'tensor3': 3}.get(drv)
+    if d is not None and tier == 'quick' and comb(N + d - 1, d) > 15:
+        return
+    pts = [np.array([2, -1, 3, 1, -2][:N], dtype=float), np.array([-1, 2, 1, -3, 2][:N], dtype=float)]
+    v = np.array([(-1) ** i * (i + 1) for i in range(N)], dtype=float)
+    seeders = {'jacobian': lambda x: UTPM.init_jacobian(x), 'jac_vec': lambda x: UTPM.init_jac_vec(x, v),
+               'hessian': lambda x: UTPM.init_hessian(x), 'hess_vec': lambda x: UTPM.init_hess_vec(x, v),
+               'tensor2': lambda x: UTPM.init_tensor(2, x), 'tensor3': lambda x: UTPM.init_tensor(3, x)}
+    X0 = seeders[drv](pts[0])
+    D, P = X0.data.shape[:2]
+    Ls = sorted(set([1, 2, 3, 4, N, P, D, P + 1]))
+    c.out['lists'] = {}
+    for L in Ls:
+        for name, f in vec_forms(N, L):
+            try:
+                sym = f(qpoly.variables(N))
+            except Exception as ex:
+                c.fail('C09|vecpoly|reference raises|%s' % name, {'form': name, 'L': L}, {'error': str(ex)[:160]})
+                continue
+            sym = np.asarray(sym, dtype=object)
+            W = np.arange(1, sym.size + 1, dtype=float).reshape(sym.shape) * np.where(np.arange(sym.size).reshape(sym.shape) % 2, -1.0, 1.0)
+            tot = qpoly.Poly.const(N, 0)
+            for w, q in zip(W.ravel(), sym.ravel()):
+                tot = tot + qpoly.as_poly(N, q) * int(w)
+            for x in pts:
+                fx = [Fraction_(t) for t in x]
+                case = {'form': name, 'L': L, 'x': x.tolist(), 'P': int(P), 'D': int(D)}
+                g = np.array([float(tot.diff(i).eval(fx)[0]) for i in range(N)])
+                H = np.array([[float(tot.diff(i).diff(j).eval(fx)[0]) for j in range(N)] for i in range(N)])
+                try:
+                    Y = f(seeders[drv](x))
+                    if not isinstance(Y, UTPM) or Y.shape != sym.shape:
+                        c.out['evals'] += 1
+                        c.fail('C09|vecpoly|%s|%s|shape' % (drv, name), case, {'got_shape': list(np.shape(Y)), 'expected_shape': list(sym.shape)})
+                        continue
+                    y = algopy.sum(Y * W)
+                    sc = float(np.abs(Y.data).max()) * float(np.abs(W).max()) * W.size
+                    sub = '%s|L=%s' % (name, 'P' if L == P else 'D' if L == D else 'N' if L == N else 'other')
+                    if drv == 'jacobian':
+                        c.check('vecpoly jacobian', sub, UTPM.extract_jacobian(y), g, sc, case)
+                        if sym.ndim == 1:
+                            Jv = np.array([[float(qpoly.as_poly(N, q).diff(i).eval(fx)[0]) for i in range(N)] for q in sym])
+                            c.check('vecpoly jacobian vector-valued', sub, UTPM.extract_jacobian(Y), Jv, sc, case)
+                    elif drv == 'jac_vec':
+                        c.check('vecpoly jac_vec', sub, UTPM.extract_jac_vec(y), g.dot(v), sc, case)
+                        if sym.ndim == 1:
+                            Jv = np.array([[float(qpoly.as_poly(N, q).diff(i).eval(fx)[0]) for i in range(N)] for q in sym])
+                            c.check('vecpoly jac_vec vector-valued', sub, UTPM.extract_jac_vec(Y), Jv.dot(v), sc, case)
+                    elif drv == 'hessian':
+                        c.check('vecpoly hessian', sub, UTPM.extract_hessian(N, y), H, sc, case)
+                    elif drv == 'hess_vec':
+                        c.check('vecpoly hess_vec', sub, UTPM.extract_hess_vec(N, y), H.dot(v), sc, case)
+                    else:
+                        J = np.atleast_2d(algopy.exact_interpolation.generate_multi_indices(N, d))
+                        exp = []
+                        for row in J:
+                            q = tot
+                            for i, k in enumerate(row):
+                                for _ in range(int(k)):
+                                    q = q.diff(i)
+                            exp.append(float(q.eval(fx)[0]) / np.prod([factorial(int(k)) for k in row]))
+                        c.check('vecpoly tensor d=%d' % d, sub, UTPM.extract_tensor(N, y, as_full_matrix=False), np.array(exp), sc, case)
+                except Exception as ex:
+                    c.out['evals'] += 1
+                    c.fail('C09|vecpoly|%s|%s|raises' % (drv, name), case, {'error': '%s: %s' % (type(ex).__name__, str(ex)[:160])})
+    c.out['samples'] = [{'N': N, 'driver': drv, 'P': int(P), 'D': int(D), 'constant_lengths': [int(l) for l in Ls], 'forms': [n for n, _ in vec_forms(N, 1)]}]
+
+
+def Fraction_(t):
+    from fractions import Fraction
+    return Fraction(int(t))
+
+
 def run_smooth(c, progs, seed):
     NX = PR.NX
     for prog in progs:
@@ -391,6 +547,9 @@ def run_unit(u):
         return c.out
     if u['kind'] == 'repeat':
         run_repeat(c)
+        return c.out
+    if u['kind'] == 'vecpoly':
+        run_vecpoly(c, u['N'], u['driver'], u['tier'])
         return c.out
     if u['kind'] == 'mono':
         run_mono(c, u['N'], u['driver'], u['tier'], u.get('d'), u.get('form'))
